@@ -58,7 +58,11 @@ VARIABLES cv,      \* the chunk heap: name -> vector
           depth    \* number of commands executed (the profile of the next one depends on it)
 
 cvars == <<heap, cv, hist, indep, depth>>
-View == <<heap, cv, indep, depth>>
+\* (a history that contains the alias case is kept apart from histories that reach the same model state
+\* without it: in the code the two need not be the same state - that was the defect - so the generators
+\* must extend both)
+Tainted == \E i \in DOMAIN hist : hist[i].alias
+View == <<heap, cv, indep, depth, Tainted>>
 
 CC(data) == [t |-> "C", data |-> data, st |-> 0, n |-> Len(data)]
 SC(data) == [t |-> "S", data |-> data, st |-> 0, n |-> Len(data)]
